@@ -815,26 +815,28 @@ def huge_cases(seed, tier):
 
 
 def huge_plan(variants, tier):
-    """-> [(variant name, runs CRC32C, runs SHA-256)].  Quick: one variant per
-    distinct CRC32C situation (path selected, SSE4.2 compiled in as 32/64 bit,
-    detector substituted, self-test made to fail, CPUID); thorough: every
-    variant, and SHA-256 on one variant per distinct SHA-256 situation."""
+    """-> [(variant name, CRC32C one call, CRC32C 2^30-byte calls, SHA-256 one call)].
+    Quick: one variant per distinct CRC32C situation (SSE4.2 64-bit, SSE4.2
+    32-bit, portable, portable after a failed SSE4.2 self-test), the pieces
+    control on the SSE4.2 variants and on the first portable one; thorough:
+    every variant runs both CRC32C lines, and SHA-256 runs on one variant per
+    distinct SHA-256 situation (path selected, self-tests made to fail)."""
     def crc_key(v):
-        return (v['expect']['crc'], 'X86_SSE42' in v['cpu'], 'X86_SSE42_64' in v['cpu'],
-                'sse42' in v['stubs'], 'sse42' in v['fails'], 'X86_CPUID' in v['cpu'])
+        return (v['expect']['crc'], 'sse42' in v['fails'])
 
     def sha_key(v):
-        return (v['expect']['sha'], 'X86_SHANI' in v['cpu'], 'X86_SSSE3' in v['cpu'],
-                'X86_SSE2' in v['cpu'], tuple(s for s in v['stubs'] if s in ('shani', 'ssse3', 'sse2')),
-                tuple(f for f in v['fails'] if f in ('shani', 'sse2')), 'X86_CPUID' in v['cpu'])
-    seen_c, seen_s, plan = set(), set(), []
+        return (v['expect']['sha'], tuple(f for f in v['fails'] if f in ('shani', 'sse2')))
+    seen_c, seen_s, plan, soft_gib = set(), set(), [], False
     for v in variants:
-        c = tier != 'quick' or crc_key(v) not in seen_c
+        one = tier != 'quick' or crc_key(v) not in seen_c
+        gib = one and (tier != 'quick' or v['expect']['crc'] != 'soft' or not soft_gib)
         s = tier != 'quick' and sha_key(v) not in seen_s
         seen_c.add(crc_key(v))
         seen_s.add(sha_key(v))
-        if c or s:
-            plan.append((v['name'], c, s))
+        if gib and v['expect']['crc'] == 'soft':
+            soft_gib = True
+        if one or s:
+            plan.append((v['name'], one, gib, s))
     return plan
 
 
@@ -859,7 +861,7 @@ def huge_finish(ctx, hres):
                       'variants disagree on %s bytes in %s: ' % ('2^32+' + t[4], 'ONE call' if t[3] == 'one'
                                                                  else 'calls of 2^30 bytes') +
                       '; '.join('%s from %s' % (a, ', '.join(n[:8])) for a, n in g))
-    ctx.count('single_call_2^32_variants', len(hres))
+    ctx.count('single_call_2^32_variants', len({n for g in by_line.values() for ns in g.values() for n in ns}))
     if not by_line and not ctx.violations and not ctx.known_hits:
         ctx.note_inconclusive('no single call of 2^32+d bytes was answered')
 
@@ -1155,8 +1157,8 @@ def run(ctx):
     # (the longest tasks, so they start first)
     hcrc, hsha = huge_cases(ctx.seed, ctx.tier)
     svn = {v['name']: v for v in sv}
-    huges = [('W', (svn[name], (hcrc if c else []) + (hsha if s else [])))
-             for name, c, s in huge_plan(variants, ctx.tier)]
+    huges = [('W', (svn[name], [c])) for name, one, gib, s in huge_plan(variants, ctx.tier)
+             for c in hcrc[:1] * one + hcrc[1:] * gib + hsha * s]      # one process per line
     allres = core.pmap(_task, huges + ooms + [('S', (sv, seeds[i], ctx.tier, i, n)) for i in range(n)])
     hres, allres = allres[:len(huges)], allres[len(huges):]
     oomres, res = allres[:len(ooms)], allres[len(ooms):]
@@ -1234,8 +1236,9 @@ def run(ctx):
         'bytes (d random; start 0..15 bytes off a page boundary; one 2 MiB memory file - a random '
         '4 KiB block repeated - mapped 2049 times back to back, so no 4 GiB are allocated) is given '
         'to ONE CRC32C_Update call and, as control, in calls of 2^30 bytes; quick: by one variant '
-        'per distinct CRC32C situation (SSE4.2 64-bit / 32-bit / portable: not compiled, detector '
-        'substituted, self-test made to fail, no CPUID), thorough: by every variant, plus ONE '
+        'per distinct CRC32C situation (SSE4.2 64-bit / SSE4.2 32-bit / portable / portable after '
+        'a failed SSE4.2 self-test; the control by the SSE4.2 variants and one portable one), '
+        'thorough: by every variant, plus ONE '
         'SHA256_Update call of the same bytes by one variant per distinct SHA-256 situation; '
         'every answer is compared with the exact value (the CRC algebra evaluated on the periodic '
         'structure; hashlib fed the same periodic bytes) and across the variants.  '
